@@ -135,7 +135,7 @@ def run(ctx, replay):
         level="model_checking",
         rule="one case = (input bytes, consumer capacities incl. nil entries, schedule): gated cases replay TLC-simulated behaviours (replay stops after three consecutive schedules the code cannot follow) of Pipeline.tla (sequences of hook "
              "passes of reader / framer / fan-out / consumers, channel operations urgent) on the real goroutines through the verif hooks; free cases run the real pipeline "
-             "under the race detector with GOMAXPROCS in {1,2,4,16}, seeded yields/sleeps at every hook, random-size chunked readers, the same AppCore handling two inputs in a row with nil entries in its consumer list, slow and fast consumers, one consumer lagging 1.5 ms per message behind 30-80 short messages, buffered and "
+             "under the race detector with GOMAXPROCS in {1,2,4,16}, seeded yields/sleeps at every hook, random-size chunked readers, scripted feed / receive / settle interactions of a one-slot slow consumer with bursty input (GOMAXPROCS 1, 2, 4), the same AppCore handling two inputs in a row with nil entries in its consumer list, slow and fast consumers, one consumer lagging 1.5 ms per message behind 30-80 short messages, buffered and "
              "unbuffered channels; each consumer's messages are compared with the real framer run sequentially on the same bytes; non-trivial = at least one message",
         assumptions=["the framer's emission schedule used as model constant is computed by FramerCore on the real bytes (Framer_Emit.tla)",
                      "goroutine termination is judged by runtime.NumGoroutine settling within 5 s; a double close / send on closed channel is a Go panic",
